@@ -54,21 +54,21 @@ def run(ctx):
         vlib.write_ndjson(pp, paths)
         ctx.run_bin("c39", ["replay", "--in", pp, "--out", tr])
         total += judge(ctx, "replay " + cfg, tr, stats)
+    for k in ("left_off", "extended", "capped", "ignored"):
+        if stats[k] == 0:
+            raise vlib.ToolError("vacuity: no replayed model path of class %s" % k)
     # 3. random runs: random configuration, 2..9 participants, clock running past the end
     tr = ctx.path("random.ndjson")
     ctx.run_bin("c39", ["random", "--seed", ctx.seed, "--n", 150 if q else 1500, "--len", 40, "--out", tr])
     total += judge(ctx, "random --seed %s" % ctx.seed, tr, stats)
     ctx.distinct += stats["changed"]
-    for k in ("left_off", "extended", "capped", "ignored"):
-        if stats[k] == 0:
-            raise vlib.ToolError("vacuity: no event of class %s in the validated traces" % k)
     if stats["panics"]:
         ctx.note("%d call(s) panicked" % stats["panics"])
     ctx.assumptions += ["volumes and times are small (no u128/i64 saturation); saturation is outside the explored world",
                         "participants are pre-created; accounts are fabricated in memory, the handler and Anchor's account validation are the program's own"]
     ctx.cov["trusted_base"] += ["TLC", "h-aux rt (syscall stubs, account buffers)", "h-aux c39 driver (fabrication and projection of accounts)"]
     return ctx.finish("model_checking",
-                      "one real on_executed call per distinct state of the bounded models (6 traders x volumes 1..3, and "
+                      "one real on_executed call per distinct state of the bounded models (6 traders x volumes 1..3 behind a 4-call prefix, and "
                       "2 traders with time steps, failed/event-less/decreasing calls) plus random runs; distinct = calls "
                       "that changed the state",
                       extra={"classes": stats, "calls": total}, exhaustive=False)
